@@ -320,7 +320,7 @@ PARSE_RULE = ("every token sequence of length <= 3 (thorough: 4, 1/4 sampled by 
               "distinct = distinct (op, config, input) lines.")
 
 PROPS["C09"] = dict(
-    lean_targets=["SJ.Props.C09", "SJ.Audit.C09"],
+    lean_targets=["SJ.Props.C09", "SJ.Props.TypedSrc", "SJ.Audit.C09"],
     configs=dict(quick=["d", "ap"], thorough=["d", "ap", "fr", "po"]),
     gen_keys=["error.", "de."],
     rule=PARSE_RULE + " C09 adds multi-line documents (spaces turned into newlines) with 4 mutations each; the three sources' "
@@ -330,17 +330,25 @@ PROPS["C09"] = dict(
     assumptions=["io::Bytes yields the reader's bytes one at a time in order, whatever the chunking (std)",
                  "raw values and stream iteration are not inside the model; typed targets are modelled (Model.Typed) and run by "
                  "op tt3 (str, slice, reader outcomes of one text against deTypedTop with src = slice / reader)"],
-    partial=["typed targets: no theorem relates the slice and reader runs of the typed model; the clause (same class, positions at most "
-             "one byte apart between slice and reader — the reader's error() counts the peeked byte — and str = slice exactly) is "
-             "evaluated by op tt3 on the crate's outcomes and the model reproduces both positions (0 disagreements)",
-             "raw, stream byte_offset: correspondence only"],
+    partial=["raw, stream byte_offset: correspondence only"],
     technique="Lean 4 theorem: the byte-step machine's outcome is independent of the slice/reader source (step-wise equality + all "
-              "error sites include the offending byte) + three-source differential run against the crate",
+              "error sites include the offending byte); typed targets by a two-run simulation over the typed model (Proofs/TypedSim: "
+              "the runs differ only at errorIdx sites with a peeked byte) + three-source differential run against the crate",
     level_text="Machine-checked: c09_slice_reader — for every configuration, both untyped targets and every byte string the slice and "
                "reader sources give the same value or the same error code at the same position (hence message, category, line, "
                "column); c09_str_slice_value / c09_str_slice / c09_all_sources — on every valid UTF-8 input (every &str) the &str source gives "
                "the identical outcome too (the UTF-8 check it skips never fires: what is decoded so far followed by the unread input "
-               "stays valid UTF-8); c09_str_slice_ignored for skipped content without that hypothesis. The crate is run on every generated input from all three "
+               "stays valid UTF-8); c09_str_slice_ignored for skipped content without that hypothesis. Typed targets (Props/TypedSrc.lean, over "
+               "Model.Typed, every schema / configuration / byte string, also in fault mode): c09_typed_slice_reader — the slice and "
+               "reader outcomes are identical, except that (a) a parser error with code NumberOutOfRange (128-bit integers), "
+               "ExpectedNumericKey or ExpectedSomeValue (deserialize_enum) — the three self.error(code) sites reached with a byte in "
+               "the peek slot — and (b) a visitor (Data) error positioned by fix_position are reported by the reader exactly one byte "
+               "later than by the slice, never earlier, and then the slice's index is that of a byte of the input (the byte in the reader's "
+               "peek slot; typed_within_input: every typed error index is <= the input length); c09_typed_slice_reader_class (same value / same code / both Data, index equal "
+               "or reader = slice + 1: the predicate op tt3 evaluates), _ok, _err (every other parser error at the same index); "
+               "c09_typed_str_slice / c09_typed_all_sources — on valid UTF-8 the &str source gives the identical typed outcome (the "
+               "typed parser consumes ASCII outside strings, so every string starts on a character boundary). The crate is run on every "
+               "generated input from all three "
                "sources with random chunkings and the outcomes are compared with each other (spec) and with the model.",
     level_note="Trusted: Lean kernel + 3 standard axioms; extract.py; harness/driver; hand-written machine model validated by "
                "correspondence. Two genuine position defects found by this check were repaired in /repo (fix: commits 28defde, 9343bad).",
@@ -373,19 +381,26 @@ PROPS["C11"] = dict(
 
 PROPS["C14"] = dict(
     asan=True,
-    lean_targets=["SJ.Props.C14", "SJ.Audit.C14"],
+    lean_targets=["SJ.Props.C14", "SJ.Props.TypedDepth", "SJ.Audit.C14"],
     configs=dict(quick=["d", "ud"], thorough=["d", "ud", "ap"]),
     gen_keys=["de."],
     rule=PARSE_RULE + " C14 adds typed targets built from arrays, newtype-enum and struct-enum wrappers nested 1..140 deep in six "
          "mixes (accepted iff at most 127 containers are open), unbounded_depth runs with the limit disabled at depth 127..1000 "
          "directly and through a stream, 20k (thorough 200k) random byte strings biased to JSON punctuation, and ten pathological inputs "
          "(10^6-deep arrays open/balanced, 2*10^5-deep objects, 4 MB string, 10^6 escapes, 10^6-digit integer/fraction/exponents, "
-         "10^6-element array) each through Value (slice, reader) and IgnoredAny under catch_unwind.",
+         "10^6-element array) each through Value (slice, reader) and IgnoredAny under catch_unwind; schema-typed towers (op tt via "
+         "typed::run_tdepth): ten container kinds (Vec, tuple, map with string / integer keys, struct from a map and from an array, "
+         "newtype / tuple / struct enum variants, Option+newtype around Vec) and their rotation, 1, 2, 63 and 124..129 layers (62..65 for the "
+         "two-level kinds) around six leaves (bool, Vec<u8> from an array, nested Value, IgnoredAny, Vec, scalar Value), complete / "
+         "cut before the closers / cut in half, from slice, reader and str, compared with the typed model; under unbounded_depth also "
+         "with disable_recursion_limit() up to 200 layers (tag ud+nolimit).",
     trusted_base=MACHINE_TB,
     assumptions=["memory safety of compiled unsafe blocks, real stack consumption and allocator behaviour are runtime properties outside any model (partial by nature)"],
     partial=["the shape invariant making every remaining model fallback unreachable is proved inside the soundness development "
              "(Proofs/Sound: Inv) but not restated per fallback",
-             "typed targets / enum wrappers / stream depth restoration: not yet modelled"],
+             "stream depth restoration: not modelled (within one typed run the budget is restored by construction: siblings are read "
+             "at the same depth argument); the recursive Rust type of op tdepth (enum Nest) has no finite schema: its towers are "
+             "covered by the unrolled enum schemas of typed::run_tdepth"],
     technique="Lean 4 invariants over the byte-step machine (stack height < 128 for every reachable state, re-dispatch happens at most "
               "once, UTF-8 of every returned string, no fuel exhaustion, termination by structural recursion) + pathological-input "
               "runs of the crate under catch_unwind (thorough: also under AddressSanitizer)",
@@ -395,7 +410,15 @@ PROPS["C14"] = dict(
                "returned value is valid UTF-8 - for the &str source, which uses str::from_utf8_unchecked, given that its input is "
                "valid UTF-8) and c14_utf8_at_closing_quote (the same at every closing quote reached, also in documents rejected "
                "later), c14_no_fuel / c14_no_fuel_machine (the fuelled f64_from_parts loop of the number conversion never runs out of "
-               "fuel on anything the scanner produces; the float_roundtrip conversion has no fuel); termination by construction. The crate "
+               "fuel on anything the scanner produces; the float_roundtrip conversion has no fuel); termination by construction. Typed targets "
+               "(Props/TypedDepth.lean over Model.Typed): c14_typed_depth_bounded (with the limit enabled, the model with every "
+               "deserialize_* call at 128 or more open containers replaced by an arbitrary poison outcome is the same function from "
+               "every depth <= 127: no such call is ever made — at most 127 containers are open on any input, accepted or not, for "
+               "every schema), c14_typed_limit_hit (with 127 open, each of the seven check_recursion! entry points — Vec / tuple / "
+               "bytes on '[', map / enum on '{', struct and Value on either — answers RecursionLimitExceeded at the opening byte; "
+               "Option, newtype structs and unit variants pass the depth on, an enum wrapper takes one level), c14_typed_tower (an "
+               "array tower of any height >= 128 on 128 '[' fails at byte count 128), c14_typed_value_depth (a nested Value runs on "
+               "the typed containers' budget: at most 127 frames together). The crate "
                "is run on random bytes, mutated documents, depth profiles and megabyte/10^6-deep inputs with catch_unwind.",
     level_note="Trusted: Lean kernel + 3 standard axioms; extract.py (remaining_depth = 128 is regenerated); harness/driver; machine "
                "model. Partial by nature: actual memory safety and stack usage of compiled code cannot be exhibited by a model.",
@@ -430,7 +453,7 @@ PROPS["C12"] = dict(
 )
 
 PROPS["C13"] = dict(
-    lean_targets=["SJ.Props.C13", "SJ.Props.Typed", "SJ.Audit.C13"],
+    lean_targets=["SJ.Props.C13", "SJ.Props.Typed", "SJ.Props.TypedFaultEq", "SJ.Audit.C13"],
     configs=dict(quick=["d", "rv"], thorough=["d", "rv", "ap", "po"]),
     gen_keys=["error.", "de.", "ser."],
     rule="reader side: 15 fixed + 150 (thorough 1500) generated/mutated documents, a reader that fails at every byte k in 0..=len "
@@ -446,9 +469,8 @@ PROPS["C13"] = dict(
     assumptions=["io::Bytes retries Interrupted and yields bytes in order; Write::write_all loops over short writes and retries "
                  "Interrupted (std) — exercised by the harness, not modelled",
                  "typed targets are judged by the property's predicate against the same bytes followed by a clean end of input"],
-    partial=["typed targets: c13_typed_fault gives the outcome class (Io, or an error / visitor error located within the delivered "
-             "bytes, never a value) but does not state that the non-Io outcome equals the clean-end-of-input run's; that equality is "
-             "checked per case by op rfaults"],
+    partial=["raw values under a failing reader (raw_value builds) are tied by the model Model.IoFault.rawFault and the correspondence; "
+             "no theorem is stated about rawFault"],
     technique="Lean 4 theorems: a reader fault instead of end of input turns the fold's finish into Io unless a delivered byte was "
               "already rejected (c13_read, by induction over the fold); writer prefix law over the serializer model's buffer list; "
               "fault-injecting readers/writers against the crate",
@@ -459,7 +481,10 @@ PROPS["C13"] = dict(
                "and either formatter, every buffer passed to write_all is valid UTF-8 on its own, hence so is what a writer holds after "
                "any number of whole buffers; the correspondence also checks every recorded buffer of the crate with "
                "Spec.Utf8.validUtf8), c13_typed_fault (typed deserializer of any schema over "
-               "a reader that fails after bs: never a value — Io, or a syntax / visitor error positioned inside bs). The crate is run with readers failing at every "
+               "a reader that fails after bs: never a value — Io, or a syntax / visitor error positioned inside bs), c13_typed_fault_eq "
+               "(… and when it is not Io it is EXACTLY the outcome of the same bytes followed by a clean end of input — same code / "
+               "visitor error at the same index — which is then Syntax- or Data-classified: the predicate judgeFault evaluates in op "
+               "rfaults), c13_typed_fault_io (if the clean run accepts or ends Eof-classified, the failing reader yields Io). The crate is run with readers failing at every "
                "byte and writers failing after every byte count, with chunking, short writes and Interrupted.",
     level_note="Trusted: Lean kernel + 3 standard axioms; extract.py; harness/driver; machine and serializer models. std::io retry "
                "loops are assumed. A genuine defect found by this check (Io error yielded twice by a stream) was repaired in /repo.",
